@@ -9,6 +9,7 @@ import (
 	"fmt"
 	"math/rand/v2"
 	"strings"
+	"sync/atomic"
 	"time"
 )
 
@@ -23,6 +24,7 @@ type C19Params struct {
 	Cache   int       `json:"cache"`
 	Streams [][]C19Op `json:"streams"`
 	Shared  bool      `json:"shared"` // all connections on one prefix (else one prefix each)
+	Mem     bool      `json:"mem,omitempty"` // every connection first creates a table in the process-wide in-memory bucket (no s3_bucket)
 }
 
 func init() {
@@ -66,6 +68,7 @@ func init() {
 			}
 			p.Streams = append(p.Streams, s)
 		}
+		p.Mem = r.IntN(4) == 0
 		if r.IntN(3) == 0 {
 			// every connection starts by creating the same table name: all CREATEs are in flight together
 			for i := range p.Streams {
@@ -107,6 +110,27 @@ func runC19(x *Exec) {
 		if err := c.SetWriteTime(wt); err != nil {
 			res.err = fmt.Sprintf("write_time: %v", err)
 			return
+		}
+		if p.Mem {
+			// a table in the lazily created process-wide in-memory bucket: all connections get here together,
+			// as its first users. The row must survive a refresh (one bucket for the whole process).
+			mt := w.TableName(c.Name + "mem")
+			_, err := c.Exec(fmt.Sprintf("CREATE VIRTUAL TABLE %s USING s3db (columns='k primary key, a', s3_prefix='mem%d')", mt, idx))
+			if err == nil {
+				_, err = c.Exec(fmt.Sprintf("insert into %s values (%d,%d)", mt, idx, idx))
+			}
+			if err == nil {
+				_, err = c.Query("select s3db_refresh(?)", mt)
+			}
+			var rows [][]string
+			if err == nil {
+				rows, err = c.Query("select * from " + mt)
+			}
+			if err != nil {
+				res.err = fmt.Sprintf("in-memory table: %v", err)
+				return
+			}
+			res.outcomes = append(res.outcomes, "mem:"+RowsString(rows))
 		}
 		past := false
 		for oi, op := range ops {
@@ -207,6 +231,7 @@ func runC19(x *Exec) {
 	if !p.Shared {
 		// reference: every stream alone, one after another
 		x.Bubble(func(w *World) {
+			ResetInMem()
 			for i, ops := range p.Streams {
 				c := w.NewClient(fmt.Sprintf("c%d", i))
 				res := &c19Result{}
@@ -231,6 +256,7 @@ func runC19(x *Exec) {
 		// runs use batch release, which is what the race detector needs.
 		w.Batch = !hasCommon
 		w.Policy = "random"
+		ResetInMem()
 		var cs []*Client
 		for i := range p.Streams {
 			cs = append(cs, w.NewClient(fmt.Sprintf("c%d", i)))
@@ -266,6 +292,14 @@ func runC19(x *Exec) {
 			}
 		}
 		x.ProbeN("same-name-create-attempted-by-2+", b2i(tried >= 2))
+		if p.Mem {
+			x.Check()
+			if n := atomic.LoadInt32(&InMemCreated); n > 1 {
+				x.Fail("C19-in-memory-bucket-created-twice", "%d connections created the process-wide in-memory bucket; run one after another only the first does", n)
+				return
+			}
+			x.ProbeN("in-memory-bucket-first-use-by-2+", b2i(len(p.Streams) >= 2))
+		}
 		x.Check()
 		if ncommon > 1 {
 			x.Fail("C19-same-name-created-twice", "%d connections created a table of the same name concurrently; in any sequential order only one CREATE succeeds (process-wide registry)", ncommon)
